@@ -133,6 +133,22 @@ fn check_emit(e: &Emit, cx: &mut Cx) -> Res {
                     ensure!(direct.is_ok() == piped.is_ok(), "direct rendering {} but piped rendering {} for {a:?}", direct.describe(), piped.describe());
                 }
             }
+            // a dirty object carries the wall clock of the run that emitted it, and of every later
+            // stage: everything else survives the pipe
+            if z.vars.dirty == Some(true) {
+                let now = || std::time::SystemTime::now().duration_since(std::time::UNIX_EPOCH).map(|d| d.as_secs()).unwrap_or(0);
+                let t1 = now();
+                ensure!(z.vars.bumped_timestamp.is_some_and(|t| t + 30 >= t1 && t <= t1), "dirty object emitted by `version {a:?}` has bumped_timestamp {:?}, not the wall clock (~{t1})", z.vars.bumped_timestamp);
+                if let cli::Run::Ok(again) = cli::version(&cli::sv(&["--source", "stdin", "--output-format", "zerv"]), Some(&out)) {
+                    let z2 = Zerv::from_str(&again).map_err(|e| Bad::Fail(format!("piped object does not parse: {e}")))?;
+                    let t2 = now();
+                    ensure!(z2.vars.bumped_timestamp.is_some_and(|t| t >= t1 && t <= t2), "dirty object after the pipe has bumped_timestamp {:?}, not the wall clock [{t1},{t2}]", z2.vars.bumped_timestamp);
+                    let (mut x, mut y) = (z.clone(), z2.clone());
+                    x.vars.bumped_timestamp = None;
+                    y.vars.bumped_timestamp = None;
+                    ensure!(x == y, "a dirty object emitted by `version {a:?}` changes in the pipe beyond its wall-clock timestamp:\n--- emitted\n{out}\n--- after the pipe\n{again}");
+                }
+            }
             // an emitted object is already normalised: passing it through the flag-less pipe
             // must give it back unchanged (clock-free objects)
             if z.vars.dirty != Some(true) {
@@ -282,7 +298,7 @@ fn check_garbage(doc: &String, cx: &mut Cx) -> Res {
 pub fn property() -> Property {
     let emit = RandomSub::<Emit>::new(
         "roundtrip",
-        (30_000, 700_000),
+        (120_000, 2_000_000),
         |_| {
             prop_oneof![
                 3 => zg::mzerv_p(true).prop_map(Emit::Direct),
